@@ -45,7 +45,7 @@ def add_hypothese(cn, transcript, score):
                 cn.append({None: cn_total_weight, tr_sym: score})
             else:
                 cn = cn[:cn_pointer] + [{None: cn_total_weight, tr_sym: score}] + cn[cn_pointer:]
-                cn_pointer += 1
+            cn_pointer += 1
             tr_pointer += 1
         else:
             raise RuntimeError("Got unexpected direction {}".format(direction))
